@@ -388,6 +388,52 @@ func treeLines(e *evmx.Env, truncated bool) []SEv {
 	return append(out, t)
 }
 
+// balanceLines: the transfers observed by the wrapped Transfer function (with the position in the callback stream at which each
+// happened and the real balances around it), then the balance journal of every account involved as StateChanges.Balance returns it.
+func balanceLines(e *evmx.Env, p *gen.Program, truncated bool) []SEv {
+	var out []SEv
+	top := 0
+	if truncated {
+		top = 1
+	}
+	seen := map[string]bool{}
+	var accts []string
+	add := func(a string) {
+		if !seen[a] {
+			seen[a] = true
+			accts = append(accts, a)
+		}
+	}
+	for _, x := range e.Xfers {
+		out = append(out, SEv{K: "xfer", D: x.Pos, From: x.From, To: x.To, Val: x.Amt, T0: x.Before[0], T1: x.Before[1], T2: x.After[0], GasX: x.After[1], Top: top, I0: -2, I1: -2, I2: -2, Kids: []int{}})
+		add(x.From)
+		add(x.To)
+	}
+	add(hex.EncodeToString(gen.EO[:]))
+	add(hex.EncodeToString(evmx.DefaultCoinbase[:]))
+	var cs []string
+	for a := range p.Contracts {
+		cs = append(cs, hex.EncodeToString(a[:]))
+	}
+	sort.Strings(cs)
+	for _, a := range cs {
+		add(a)
+	}
+	sc := e.EVM.Tracer().StateChanges()
+	n := 0
+	for _, a := range accts {
+		d := evmx.DumpChanges(sc.Balance(common.HexToAddress(a)))
+		for _, idx := range evmx.SortedKeys(d) {
+			for i, v := range d[idx] {
+				b, _ := hex.DecodeString(v)
+				out = append(out, SEv{K: "balv", To: a, D: int(idx) + 1, Pc: i + 1, Val: new(big.Int).SetBytes(b).String(), Top: top, I0: -2, I1: -2, I2: -2, Kids: []int{}})
+				n++
+			}
+		}
+	}
+	return append(out, SEv{K: "balend", D: n, Pc: len(e.Xfers), Top: top, I0: -2, I1: -2, I2: -2, Kids: []int{}})
+}
+
 func errClassOf(t string) string {
 	if strings.HasPrefix(t, "invalid opcode") {
 		return "invalid opcode"
@@ -460,6 +506,7 @@ func runArtela(p *gen.Program, o runOpts) (out runOut) {
 		e = evmx.NewEnvWithTracer(envo, tee)
 	}
 	e.EVM.IsExecuteJP = o.jpOn
+	e.XferPos = func() int { return len(rec.evs) }
 	var firings []SEv
 	e.Host.OnFire = func(f evmx.Firing) {
 		firings = append(firings, SEv{K: "jp", D: len(rec.evs), To: f.Contract, Name: f.Point, I0: -2, I1: -2, I2: -2})
@@ -518,6 +565,7 @@ func runArtela(p *gen.Program, o runOpts) (out runOut) {
 	if o.tracer && panicked == "" {
 		truncated := o.limit > 0 && len(rec.evs) >= o.limit
 		out.tree = treeLines(e, truncated)
+		out.tree = append(out.tree, balanceLines(e, p, truncated)...)
 		if o.jpOn {
 			// the provider's log of join-point firings with the position in the callback stream at which each happened
 			if truncated {
